@@ -115,7 +115,7 @@ theorem padding_measure_covers_render (p : PadDims) (c : Child σ) (w : Int)
 
 /-- **panel_rect.**  For every child, box of `rich/box.py`, title, title alignment, `expand`, `width`,
 padding and available width `w`, whenever the panel is at least 2 cells wide (4 with a title) and — for
-today's `Text.rstrip_end` only, which counts characters — the title has no more characters than the
+the `Text.rstrip_end` of rich 9.10.0 as found only (before fix f5f2be9), which counts characters — the title has no more characters than the
 console is wide: the lines drawn are the top border, then — unchanged and
 in order — the lines `Console.render_lines` gives for the (padded) child at the inner width, each
 between the two side border characters, then the bottom border; all of them are exactly
@@ -308,20 +308,20 @@ example : ∀ k : Int, 1 ≤ k → k ≤ 10 → splitLines (blankChild.renderAt 
   intro k h1 _
   simp [Child.renderAt, blankChild, show ¬ k < 1 by omega]
 
-/-- F25, today's code: `Align` shows NO line for a child that renders one blank line on its own. -/
+/-- F25, rich 9.10.0 as found (before fix a9def3a): `Align` shows NO line for a child that renders one blank line on its own. -/
 theorem old_align_drops_child_line :
     alignChildLines { consoleWidth := 10 } { zeroWidthChild := true } { align := .center } blankChild 10 = [] ∧
     splitLines (blankChild.renderAt 10) = [[]] ∧
     alignConsole cw { consoleWidth := 10 } { zeroWidthChild := true } { align := .center } blankChild 10 = [] := by
   decide
 
-/-- F25, today's code: `Padding(expand=False)` — the child's line is gone (only nothing is drawn). -/
+/-- F25, rich 9.10.0 as found (before fix a9def3a): `Padding(expand=False)` — the child's line is gone (only nothing is drawn). -/
 theorem old_padding_fit_drops_child_line :
     paddingConsole cw { zeroWidthChild := true } ⟨0, 0, 0, 2⟩ false blankChild 10 = [] ∧
     blankChild.linesAt cw 8 false = [[]] := by
   decide
 
-/-- F25, today's code: `Panel.fit(Text(""), padding=0)` has no body row. -/
+/-- F25, rich 9.10.0 as found (before fix a9def3a): `Panel.fit(Text(""), padding=0)` has no body row. -/
 theorem old_panel_fit_has_no_body_row :
     (blankChild.linesAt cw (panelChildWidth cw { zeroWidthChild := true } { box := 0, expand := false, padding := [0] } blankChild 10) true).length = 0 ∧
     (blankChild.linesAt cw 8 true).length = 1 := by
@@ -335,8 +335,8 @@ example : splitLines (alignConsole cw { consoleWidth := 10 } { zeroWidthChild :=
 
 /-- **rule_exact.**  For every title, `characters` (any length, wide characters included), alignment,
 `end` and width `w ≥ 1` in the modelled domain: the rule is one line of exactly `w` cells followed by
-`end`.  With the repaired `Text.rstrip_end` (cell count) this holds unconditionally — zero-width
-characters in the title included; with today's (character count) it needs the text to have no more
+`end`.  With the repaired `Text.rstrip_end` (cell count; fix f5f2be9, what /repo contains now) this holds unconditionally — zero-width
+characters in the title included; with the as-found one (character count) it needs the text to have no more
 characters than cells available or not to end in a blank (see `old_rule_short_after_rstrip`). -/
 theorem rule_exact (env : Env) (v : Variant) (o : RuleOpts) (w : Int) (hw : 1 ≤ w) (out : List (Segment σ))
     (h : ruleConsole cw env v o w = some out)
@@ -390,7 +390,7 @@ theorem rule_right_shows_title (env : Env) (z : Bool) (o : RuleOpts) (w : Int) (
       (cellLen cw side : Int) = w - cellLen cw (o.title.map (fun c => if c == '\n' then ' ' else c)) - 1 :=
   ruleText_right_repaired cw cw_space cw_le_two env z o w ha hne hfit
 
-/-- New finding, today's code: `Rule("title", characters="-=", align="right")` at width 20 does not show
+/-- New finding, rich 9.10.0 as found (before fix 8879061): `Rule("title", characters="-=", align="right")` at width 20 does not show
 its title at all (the side is `characters` repeated 14 times = 28 cells, and the final crop removes the title). -/
 theorem old_rule_right_loses_title :
     (ruleText cw { consoleWidth := 20 } { ruleRightRepeat := true }
@@ -401,7 +401,7 @@ example : (ruleText cw { consoleWidth := 20 } { ruleRightRepeat := false }
       { title := "title".toList, characters := "-=".toList, align := .right } 20).1 = "-=-=-=-=-=-=-= title".toList := by
   decide
 
-/-- New finding: a right-aligned title with a zero-width character and a trailing blank makes the rule
+/-- New finding (rich 9.10.0 as found, before fix f5f2be9): a right-aligned title with a zero-width character and a trailing blank makes the rule
 one cell short (`Rule(Text("à "), align="right")` at width 10 draws 9 cells). -/
 theorem old_rule_short_after_rstrip :
     (ruleConsole (σ := Nat) cw { consoleWidth := 10 } {} { title := ['a', '\u0300', ' '], align := .right } 10).map (lineLength cw)
@@ -497,7 +497,7 @@ theorem columns_each_once_in_order (v : Variant) (o : ColumnsOpts) (measured : L
   · intro hf; rw [hf]; exact itemOrder_rowFirst _ _
   · intro hf r j hj hp; rw [hf]; exact itemOrder_columnFirst_getElem? hc r j hj hp
 
-/-- F11, today's code (belongs to C14, lives in this model): `Columns(width=…)` raises
+/-- F11, rich 9.10.0 as found, before fix f7ecf83 (belongs to C14, lives in this model): `Columns(width=…)` raises
 `ZeroDivisionError` exactly when the requested column width plus padding is 0 or exceeds the available width. -/
 theorem old_columns_zero_division_iff (z r k : Bool) (o : ColumnsOpts) (measured : List Int) (maxWidth : Int) (p : PadDims) (cwid : Int)
     (hne : measured ≠ []) (hp : unpackPad o.padding = .ok p) (hw : o.width = some cwid) :
